@@ -216,6 +216,13 @@ def run_shape(shape, tier):
             kept = _kept_flags(shape, inp)
             desc = _describe(shape, inp)
             _check_object(sink, path, shape, inp, kept, d, "init", desc)
+            # the caller's own arrays are left as they were (a second data set built from the same arrays must see the same pairing)
+            same_in = all(a is b for a, b in zip(inp["t_arr"].a.flat, inp["t"])) and all(a is b for a, b in zip(inp["rv_q"].value.a.flat, inp["rv"]))
+            if shape["kind"] == "1d":
+                same_in = same_in and all(a is b for a, b in zip(inp["rv_err_q"].value.a.flat, inp["err"]))
+            pref_in = [core.lift(inp["t"][i]) > core.lift(inp["t"][i + 1]) + 1 for i in range(nt - 1)] + [f_.e for f_ in inp["flags"].values()]
+            sink.check(path, "init.inputs_unmodified", core.SB(z3.BoolVal(bool(same_in))), site="RVData.__init__.inputs", describe=desc, structural_claim=True,
+                       prefer=pref_in)      # counterexample models: unsorted, all-finite input
             if ex.n_paths % 2 == 1:
                 add_witness(res, path, desc, site="RVData")
             # derived quantities
@@ -466,6 +473,7 @@ def _replay_once(cand, fill):
     if shape["clean"]:
         keep = np.isfinite(t) & np.isfinite(rv)
         keep &= np.isfinite(err_q.value) if shape["kind"] == "1d" else np.isfinite(err_q.value).all(axis=0)
+    t_in, rv_in, err_in = t.copy(), rv.copy(), np.array(err_q.value, copy=True)
     try:
         as_time = (nt % 2 == 0) if shape.get("tin") is None else shape["tin"] == "time"
         d = RVData(Time(t, format="mjd", scale="tcb") if as_time else t, rv * vunit, err_q, t_ref=t_ref, clean=shape["clean"])
@@ -474,6 +482,10 @@ def _replay_once(cand, fill):
             return {"reproduced": False, "detail": "constructor raised on all-non-finite input (allowed)"}
         return {"reproduced": True, "detail": "RVData(...) raised %s: %s" % (type(e).__name__, str(e)[:200])}
     bad = []
+    if not (np.array_equal(t, t_in, equal_nan=True) and np.array_equal(rv, rv_in, equal_nan=True) and np.array_equal(np.asarray(err_q.value), err_in, equal_nan=True)):
+        bad.append("the constructor modified the caller's input arrays (t %s -> %s)" % (t_in.tolist(), t.tolist()))
+        t, rv = t_in.copy(), rv_in.copy()
+        err_q = err_in * err_q.unit
     if not keep.any():
         ok = len(d) == 0
         return {"reproduced": not ok, "detail": "no finite observation: RVData holds %d rows" % len(d)}
